@@ -73,5 +73,15 @@ structure Laws (I : Interp α) (WT : Tensor α → Prop) : Prop where
   /-- C17: an accepted round trip is the identity on well-typed tensors of the source type -/
   cast_rt : ∀ s m (t : Tensor α), castRefOk s m = true → t.dtype = s → WT t →
     castT I.castS s (castT I.castS m t) = t
+  /-- `Not` of a scalar boolean constant is the negated constant -/
+  not_const : ∀ b, pw (I.fn "Not" "") [I.boolT b] = I.boolT (!b)
+  /-- definition of ONNX `Swish` (alpha = 1) on scalars: `x * Sigmoid(x)`, either operand order -/
+  swish : ∀ v, I.fn "Mul" "" [v, I.fn "Sigmoid" "" [v]] = I.fn "Swish" "" [v]
+  swish' : ∀ v, I.fn "Mul" "" [I.fn "Sigmoid" "" [v], v] = I.fn "Swish" "" [v]
+  /-- a keepdims reduction over axes commutes with a transpose when the axes are mapped through it
+      (assumed ONNX fact; float re-association inside one reduction is not modelled) -/
+  reduce_transpose : ∀ nm axes p (t : Tensor α), validPerm p = true → t.rank = p.length →
+    (∀ a ∈ axes, a < p.length) →
+    I.reduce nm axes (transpose p t) = transpose p (I.reduce nm (sortNat (axes.map (permFn p))) t)
 
 end J2O.C02
